@@ -327,7 +327,9 @@ func holScenarios(seed int64) []Scenario {
 
 // ctxScenarios (C06/C07): what kind of context the lane is given and who pushes how soon after its
 // end. The lane is handed (a) a context type that is not the standard library's, (b) a standard
-// context with hundreds of other children; the cancel (or deadline) lands with the lane idle, loaded
+// context with hundreds of other children, (c) a context that - itself or through an ancestor -
+// ends with an application-defined cause (WithCancelCause / WithTimeoutCause): PushTask owes the
+// context's error (Canceled / DeadlineExceeded), not the cause; the cancel (or deadline) lands with the lane idle, loaded
 // or right after New; pushes follow from the cancelling goroutine itself (the instant cancel()
 // returned) and from goroutines woken by <-ctx.Done().
 func ctxScenarios(seed int64) []Scenario {
@@ -335,7 +337,7 @@ func ctxScenarios(seed int64) []Scenario {
 	for rep := 0; rep < 6; rep++ {
 		for _, cfg := range [][2]int{{1, 0}, {1, 2}, {2, 1}, {3, 0}, {4, 2}} {
 			ls, qs := cfg[0], cfg[1]
-			for _, kind := range []string{"own", ""} {
+			for _, kind := range []string{"own", "", "cause"} {
 				sib := 0
 				if kind == "" {
 					sib = []int{300, 40, 1000}[rep%3]
